@@ -1,6 +1,7 @@
 import HqModel.Lemmas.JobState
 import HqModel.Lemmas.IntArray
 import HqModel.Lemmas.JobCompleted
+import HqModel.Props.C13Wait
 /-!
 # C13 — job bookkeeping: counters match tasks, atomic submits, status rules
 
